@@ -82,8 +82,15 @@ func VfCrawl() {
 		// a seed may be known by ID only (no address here or in the peerstore): it
 		// is skipped as a starting point but crawled if somebody names it
 		ai := &peer.AddrInfo{ID: vfPeers[i]}
+		if i > 0 && vfBool("seed.repeatsTheFirstSeed") {
+			// the caller's seed list names a peer twice (found peers + bootstrap peers overlap)
+			ai = &peer.AddrInfo{ID: vfPeers[0]}
+		}
 		if vfBool("seed.hasAddrs") {
 			ai.Addrs = []ma.Multiaddr{vfAddrOf(i)}
+			if ai.ID == vfPeers[0] {
+				ai.Addrs = []ma.Multiaddr{vfAddrOf(0)}
+			}
 			seedHasAddrs[ai.ID] = true
 		}
 		seeds = append(seeds, ai)
